@@ -318,7 +318,208 @@ def _const_lower_bound(fn, site, a, need):
     return None
 
 
-def discharge(site):
+def _closures_passed(fn, t):
+    out = []
+    for a in t["a"]:
+        p = vf.op_place(a)
+        if not p or p[1]:
+            continue
+        for bb in fn.bbs:
+            for s in bb["s"]:
+                if s["k"] == "a" and s["d"] == [p[0], []] and s["r"]["k"] == "agg" and s["r"].get("ak") == "closure":
+                    out.append((s["r"]["adt"], s["r"]["f"]))
+    return out
+
+
+def _filtered_le_len(fn, idx_op, recv_op, db, strict=False):
+    """idx comes (through `?` / ok_or) from `Option::filter(|s| *s <= V.len())` where V is the
+    receiver that is about to be split/indexed: the bound check lives in the filter closure."""
+    base = vf.strip_clones(fn, recv_op)
+    if base is None or db is None:
+        return None
+    calls = [p for p in vf.producers(fn, idx_op) if p[0] == "call"]
+    if len(calls) != 1 or not calls[0][1].endswith("Option::<T>::filter"):
+        return None
+    ft = fn.bbs[calls[0][2]]["t"]
+    cls = _closures_passed(fn, ft)
+    if len(cls) != 1 or cls[0][0] not in db.fns:
+        return None
+    g = db.fns[cls[0][0]]
+    caps = cls[0][1]
+    if any(bb["t"]["k"] == "sw" for bb in g.bbs):
+        return None
+    cmps = cfg.comparisons(g)
+    if len(cmps) != 1:
+        return None
+    x = cmps[0]
+    want = ("Lt",) if strict else ("Le", "Lt")
+    for (l, r, swap) in ((x.l, x.r, False), (x.r, x.l, True)):
+        op = x.op if not swap else cfg._SWAP[x.op]
+        if op not in want:
+            continue
+        pl, pr = vf.producers(g, l), vf.producers(g, r)
+        if not any(y[0] == "arg" and y[1] == 2 for y in pl):
+            continue
+        lens = [y for y in pr if y[0] == "call" and y[1].endswith("::len")]
+        if len(lens) != 1:
+            continue
+        lt = g.bbs[lens[0][2]]["t"]
+        capf = [y for y in vf.producers(g, lt["a"][0]) if y[0] == "field" and y[1] == g.id]
+        if len(capf) != 1:
+            continue
+        idx = capf[0][2]
+        cap_ops = [o for n, o in caps if n == idx]
+        if len(cap_ops) != 1:
+            continue
+        if vf.strip_clones(fn, cap_ops[0]) != base and vf.base_local_of_ref(fn, cap_ops[0]) != base:
+            continue
+        return "index filtered by the closure `|s| *s %s %s.len()` before use" % ("<" if op == "Lt" else "<=", fn.local_name(base))
+    return None
+
+
+def _saturating_sub_of_len(fn, idx_op, recv_op):
+    """idx = recv.len().saturating_sub(..) <= recv.len()"""
+    base = vf.strip_clones(fn, recv_op)
+    calls = [p for p in vf.producers(fn, idx_op) if p[0] == "call"]
+    if base is None or len(calls) != 1 or not calls[0][1].endswith("saturating_sub"):
+        return None
+    st = fn.bbs[calls[0][2]]["t"]
+    lens = [p for p in vf.producers(fn, st["a"][0]) if p[0] == "call"]
+    if len(lens) != 1 or not lens[0][1].endswith("::len"):
+        return None
+    lt = fn.bbs[lens[0][2]]["t"]
+    if vf.strip_clones(fn, lt["a"][0]) != base:
+        return None
+    return "index = %s.len().saturating_sub(..) <= len" % fn.local_name(base)
+
+
+_OPT_VIEWS = ("core::option::Option::<T>::as_ref", "core::option::Option::<T>::as_mut", "core::option::Option::<T>::as_deref",
+              "core::clone::Clone::clone", "core::option::Option::<T>::cloned", "core::option::Option::<T>::copied")
+
+
+def _option_field_place(fn, o, depth=0):
+    """Operand holding (a view of) an Option stored in a struct field ->
+    (root local of the struct, field name) or None.  Follows as_ref()/clone()/&/copies."""
+    p = vf.op_place(o)
+    if p is None or depth > 10:
+        return None
+    flds = [e for e in p[1] if isinstance(e, dict) and "n" in e]
+    if flds:
+        if len(flds) != 1:
+            return None
+        return (vf.strip_clones(fn, {"c": [p[0], []]}), flds[0]["n"])
+    ds = fn.defs().get(p[0], [])
+    if len(ds) != 1:
+        return None
+    d = ds[0]
+    if d[0] == "a" and not d[3]["d"][1]:
+        r = d[3]["r"]
+        if r["k"] == "ref":
+            q = r["p"]
+            return _option_field_place(fn, {"c": q}, depth + 1)
+        if r["k"] == "use":
+            return _option_field_place(fn, r["o"], depth + 1)
+    elif d[0] == "call":
+        t = d[2]
+        if t.get("f") in _OPT_VIEWS and t["a"]:
+            return _option_field_place(fn, t["a"][0], depth + 1)
+    return None
+
+
+def _is_some_predicate(db, fid):
+    """If workspace fn `fid` is `fn(&self) -> bool { self.<field>.is_some() }` return the field name."""
+    g = db.fns.get(fid) if db else None
+    if g is None or g.argc != 1 or g.locals[0]["ty"] != "bool":
+        return None
+    calls = list(g.calls())
+    if len(calls) != 1 or not (calls[0][1].get("f") or "").endswith("Option::<T>::is_some") or calls[0][1]["d"] != [0, []]:
+        return None
+    if any(bb["t"]["k"] == "sw" for bb in g.bbs):
+        return None
+    pl = _option_field_place(g, calls[0][1]["a"][0])
+    if pl and pl[0] == 1:
+        return pl[1]
+    return None
+
+
+def _is_some_guard(fn, site, db):
+    """unwrap/expect of an Option field that a dominating `is_some()` test (direct, through a
+    one-line predicate method, or in the `.filter(..)` closure feeding this `.map(..)` closure)
+    has shown to be Some."""
+    if not site.ops:
+        return None
+    target = _option_field_place(fn, site.ops[0])
+    if target is None or target[0] is None:
+        return None
+    for b, t in fn.calls():
+        f = t.get("f") or ""
+        if not t["a"]:
+            continue
+        fld = None
+        if f in _OPT_VIEWS and b != site.b:
+            # `match self.f.as_mut() { Some(_) => self.f.as_mut().unwrap() .. }`: the Some arm of a view of the same field
+            pl = _option_field_place(fn, t["a"][0])
+            if pl and pl == target and vf.op_place(site.ops[0]) and t["d"][0] != vf.op_place(site.ops[0])[0]:
+                fld = pl[1]
+        elif f.endswith("Option::<T>::is_some"):
+            pl = _option_field_place(fn, t["a"][0])
+            if pl and pl == target:
+                fld = pl[1]
+        else:
+            pf = _is_some_predicate(db, f)
+            if pf == target[1] and vf.strip_clones(fn, t["a"][0]) == target[0]:
+                fld = pf
+        if fld is None:
+            continue
+        g = cfg.call_guard(fn, b)
+        if g.ok and cfg.must_pass(fn, g.ok, {site.b})[0]:
+            return "dominated by the true edge of %s on the same field `%s`" % (f.split("::")[-1], fld)
+    # closure of `.map(..)` fed by `.filter(|p| p.<field>.is_some())`
+    if fn.dk == "Closure" and db is not None and fn.parent in db.fns and target[0] == 2:
+        par = db.fns[fn.parent]
+        for b, t in par.calls():
+            if fn.id not in [c_[0] for c_ in _closures_passed(par, t)] or not t["a"]:
+                continue
+            for p in vf.producers(par, t["a"][0]):
+                if p[0] == "call" and p[1].endswith("Iterator::filter"):
+                    ft = par.bbs[p[2]]["t"]
+                    for cid, _caps in _closures_passed(par, ft):
+                        cg = db.fns.get(cid)
+                        if cg is None or any(bb["t"]["k"] == "sw" for bb in cg.bbs):
+                            continue
+                        cs = list(cg.calls())
+                        if len(cs) == 1 and (cs[0][1].get("f") or "").endswith("Option::<T>::is_some") and cs[0][1]["d"] == [0, []]:
+                            pl = _option_field_place(cg, cs[0][1]["a"][0])
+                            if pl and pl[0] == 2 and pl[1] == target[1]:
+                                return "items were filtered by `|p| p.%s.is_some()` directly before this map" % pl[1]
+    return None
+
+
+def dominated_by_cmp(fn, block, lhs_call_suffix, op, rhs):
+    """Is `block` reachable only through an edge asserting  <value of a call ending in lhs_call_suffix> OP rhs ?
+    rhs: an int constant, or the name suffix of a call. Used to tie an allow-list entry to its guard."""
+    for x in cfg.comparisons(fn):
+        for (l, r, swap) in ((x.l, x.r, False), (x.r, x.l, True)):
+            pl, pr = vf.producers(fn, l), vf.producers(fn, r)
+            if not any(p[0] == "call" and p[1].endswith(lhs_call_suffix) for p in pl):
+                continue
+            if isinstance(rhs, int):
+                if _const(fn, r) != rhs:
+                    continue
+            elif not any(p[0] == "call" and p[1].endswith(rhs) for p in pr):
+                continue
+            xop = x.op if not swap else cfg._SWAP[x.op]
+            edges = set()
+            if xop == op:
+                edges = x.true_edges
+            elif cfg._NEG[xop] == op:
+                edges = x.false_edges
+            if edges and cfg.must_pass(fn, edges, {block})[0]:
+                return True
+    return False
+
+
+def discharge(site, db=None):
     """Return a reason string if a recognised guard makes the site safe."""
     fn = site.fn
     t = site.term
@@ -409,6 +610,13 @@ def discharge(site):
         if g:
             return "divisor " + g
         return None
+    if k in ("unwrap", "expect"):
+        return _is_some_guard(fn, site, db)
+    if k in ("split_off", "string_split_off") and len(t["a"]) == 2:
+        g = _filtered_le_len(fn, t["a"][1], t["a"][0], db) or _saturating_sub_of_len(fn, t["a"][1], t["a"][0])
+        if g:
+            return g
+        return None
     if k == "windows" and len(t["a"]) == 2:
         g = _const_lower_bound(fn, site, t["a"][1], 1)
         if g:
@@ -417,10 +625,10 @@ def discharge(site):
     return None
 
 
-def all_sites(fns):
+def all_sites(fns, db=None):
     out = []
     for f in fns:
         for s in sites_of(f):
-            s.discharged = discharge(s)
+            s.discharged = discharge(s, db)
             out.append(s)
     return out
